@@ -623,62 +623,7 @@ func c01Header(r *Run, x *codecX) {
 	r.check(ok && hl == 7, "r7", "headerLength", token.NoPos, "headerLength = 7", fmt.Sprintf("headerLength = %d, want 7", hl))
 	send := r.mustFunc("r7", "p9", "send")
 	if send != nil {
-		// Order of header writes on headerBuf.
-		var order []string
-		var hdrBufObj types.Object
-		var firstArg ast.Expr
-		var typArg, tagArg ast.Expr
-		ast.Inspect(send.Decl.Body, func(n ast.Node) bool {
-			call, ok := n.(*ast.CallExpr)
-			if !ok {
-				return true
-			}
-			k := calleeKey(info, call)
-			switch k {
-			case "p9.buffer.Write32", "p9.buffer.WriteMsgType", "p9.buffer.WriteTag":
-				base := objOfSelBase(info, call.Fun)
-				if hdrBufObj == nil {
-					hdrBufObj = base
-				}
-				if base == hdrBufObj {
-					order = append(order, strings.TrimPrefix(k, "p9.buffer."))
-					switch k {
-					case "p9.buffer.Write32":
-						firstArg = call.Args[0]
-					case "p9.buffer.WriteMsgType":
-						typArg = call.Args[0]
-					case "p9.buffer.WriteTag":
-						tagArg = call.Args[0]
-					}
-				}
-			}
-			return true
-		})
-		got := strings.Join(order, " ")
-		r.check(got == "Write32 WriteMsgType WriteTag", "r7", "send header order", send.Decl.Pos(), "size[4] type[1] tag[2] written in that order", "header writes are ["+got+"], want Write32 WriteMsgType WriteTag")
-		// type argument is m.typ(), tag argument is the tag parameter.
-		okTyp := false
-		if c, ok := unparen(typArg).(*ast.CallExpr); ok {
-			okTyp = strings.HasSuffix(calleeKey(info, c), ".typ")
-		}
-		r.check(okTyp, "r7", "send header type", send.Decl.Pos(), "type byte is m.typ()", "type byte is not m.typ()")
-		okTag := false
-		if tagArg != nil {
-			if v, ok := objOf(info, tagArg).(*types.Var); ok {
-				for _, p := range send.Decl.Type.Params.List {
-					for _, nme := range p.Names {
-						if info.Defs[nme] == v {
-							okTag = true
-						}
-					}
-				}
-			}
-		}
-		r.check(okTag, "r7", "send header tag", send.Decl.Pos(), "tag field is the tag parameter", "tag field is not the tag parameter of send")
-		// totalLength = headerLength + len(fixed) [+ len(payload)]: collect definitions of the variable.
-		c01TotalLength(r, x, send, firstArg)
-		// Vectors: hdr, data, payload appended in this order; single WriteTo.
-		c01Vectors(r, x, send, hdrBufObj)
+		c01SendHeader(r, x, send)
 	}
 	recv := r.mustFunc("r7", "p9", "recv")
 	if recv != nil {
@@ -719,40 +664,228 @@ func c01Header(r *Run, x *codecX) {
 	}
 }
 
-func c01TotalLength(r *Run, x *codecX, send *FuncInfo, sizeArg ast.Expr) {
+// c01SendHeader: the 7-byte header send() writes.  The writes are followed into private helpers
+// (putHeader(&hdr, size, typ, tag)): what counts is which buffer they go to (one whose data
+// aliases the 7-byte array that is the first vector), their order and the values they carry,
+// traced back to send's own expressions.
+func c01SendHeader(r *Run, x *codecX, send *FuncInfo) {
 	info := x.info
+	m := buildServerModel(r.L)
+	res := m.resolver(send)
+	isHdrArray := func(t types.Type) bool {
+		if p, ok := t.Underlying().(*types.Pointer); ok {
+			t = p.Elem()
+		}
+		a, ok := t.Underlying().(*types.Array)
+		return ok && a.Len() == 7
+	}
+	// the array a header buffer aliases: buffer{data: E[:0]} with E the 7-byte array (or a pointer to it)
+	aliased := func(obj types.Object) ast.Expr {
+		var out ast.Expr
+		decl := r.L.declAt(obj.Pos())
+		if decl == nil {
+			return nil
+		}
+		ast.Inspect(decl, func(n ast.Node) bool {
+			var lhs []ast.Expr
+			var rhs []ast.Expr
+			switch v := n.(type) {
+			case *ast.AssignStmt:
+				lhs, rhs = v.Lhs, v.Rhs
+			case *ast.ValueSpec:
+				for _, nm := range v.Names {
+					lhs = append(lhs, nm)
+				}
+				rhs = v.Values
+			}
+			for i, l := range lhs {
+				if objOf(info, l) != obj || i >= len(rhs) {
+					continue
+				}
+				cl, ok := unparen(rhs[i]).(*ast.CompositeLit)
+				if !ok {
+					continue
+				}
+				for _, el := range cl.Elts {
+					kv, ok := el.(*ast.KeyValueExpr)
+					if !ok || r.L.str(kv.Key) != "data" {
+						continue
+					}
+					if sl, ok := unparen(kv.Value).(*ast.SliceExpr); ok && sl.Low == nil && sl.High != nil {
+						if hi, isC := constInt(info, sl.High); isC && hi == 0 {
+							if t := info.TypeOf(sl.X); t != nil && isHdrArray(t) {
+								out = sl.X
+							}
+						}
+					}
+				}
+			}
+			return true
+		})
+		return out
+	}
+	type hw struct {
+		site *Site
+		prim string
+	}
+	var writes []hw
+	var hdrArr types.Object
+	okAlias := true
+	for _, s := range m.sitesInOrder(send) {
+		if !strings.HasPrefix(s.Callee, "p9.buffer.Write") {
+			continue
+		}
+		base := objOfSelBase(info, s.Call.Fun)
+		if base == nil {
+			continue
+		}
+		arr := aliased(base)
+		if arr == nil {
+			continue // not a header buffer
+		}
+		// the array, in send's frame
+		e := s.mapExpr(info, arr)
+		if u, ok := e.(*ast.UnaryExpr); ok && u.Op == token.AND {
+			e = unparen(u.X)
+		}
+		o := objOf(info, e)
+		if o == nil || o.Pos() < send.Decl.Pos() || o.Pos() > send.Decl.End() {
+			okAlias = false
+			continue
+		}
+		if hdrArr == nil {
+			hdrArr = o
+		} else if hdrArr != o {
+			okAlias = false
+		}
+		writes = append(writes, hw{s, strings.TrimPrefix(s.Callee, "p9.buffer.")})
+	}
+	var order []string
+	for _, w := range writes {
+		order = append(order, w.prim)
+	}
+	got := strings.Join(order, " ")
+	r.check(got == "Write32 WriteMsgType WriteTag" && okAlias, "r7", "send header order", send.Decl.Pos(), "size[4] type[1] tag[2] written in that order into the 7-byte header array", "header writes are ["+got+"], want Write32 WriteMsgType WriteTag into one buffer over the header array")
+	if len(writes) != 3 || got != "Write32 WriteMsgType WriteTag" {
+		return
+	}
+	sizeArg := writes[0].site.argExpr(info, 0)
+	typArg := writes[1].site.argExpr(info, 0)
+	tagArg := writes[2].site.argExpr(info, 0)
+	// parameters of send
+	var msgParam, tagParam types.Object
+	for _, f := range send.Decl.Type.Params.List {
+		for _, nm := range f.Names {
+			o := info.Defs[nm]
+			switch {
+			case strings.HasSuffix(o.Type().String(), "p9.message"):
+				msgParam = o
+			case strings.HasSuffix(o.Type().String(), "p9.tag"):
+				tagParam = o
+			}
+		}
+	}
+	okTyp := false
+	if c, ok := unparen(typArg).(*ast.CallExpr); ok && strings.HasSuffix(calleeKey(info, c), ".typ") {
+		okTyp = objOfSelBase(info, c.Fun) == msgParam && msgParam != nil
+	}
+	r.check(okTyp, "r7", "send header type", send.Decl.Pos(), "type byte is m.typ()", "type byte is "+r.L.str(typArg)+", not the typ() of the message being sent")
+	r.check(tagParam != nil && objOf(info, tagArg) == tagParam, "r7", "send header tag", send.Decl.Pos(), "tag field is the tag parameter", "tag field is "+r.L.str(tagArg)+", not the tag parameter of send")
+
+	// the buffer the message was encoded into, and the payload
+	encBuf := ""
+	for _, s := range m.sitesInOrder(send) {
+		if strings.HasSuffix(s.Callee, ".encode") && len(s.Call.Args) == 1 && len(s.Inl) == 0 {
+			encBuf = strings.TrimPrefix(res.str(s.Call.Args[0]), "&")
+		}
+	}
+	isPayload := func(e ast.Expr) bool {
+		e = unparen(e)
+		if id, ok := e.(*ast.Ident); ok {
+			if d := res.defs[objOf(info, id)]; d != nil {
+				e = unparen(d)
+			}
+		}
+		c, ok := e.(*ast.CallExpr)
+		return ok && strings.HasSuffix(calleeKey(info, c), ".Payload")
+	}
+	// size field = 7 + len(fixed part) + len(payload): all definitions of the size variable
 	obj := objOf(info, sizeArg)
 	if obj == nil {
 		r.undecided("r7", "send total length", send.Decl.Pos(), "size argument %s is not a local variable", r.L.str(sizeArg))
-		return
-	}
-	// Definitions: totalLength := headerLength + uint32(len(dataBuf.data)); totalLength += uint32(len(p))
-	var terms []string
-	okShape := true
-	ast.Inspect(send.Decl.Body, func(n ast.Node) bool {
-		as, ok := n.(*ast.AssignStmt)
-		if !ok || len(as.Lhs) != 1 || objOf(info, as.Lhs[0]) != obj {
+	} else {
+		var kinds []string
+		okShape := true
+		ast.Inspect(send.Decl.Body, func(n ast.Node) bool {
+			as, ok := n.(*ast.AssignStmt)
+			if !ok || len(as.Lhs) != 1 || len(as.Rhs) != 1 || objOf(info, as.Lhs[0]) != obj {
+				return true
+			}
+			if as.Tok != token.DEFINE && as.Tok != token.ASSIGN && as.Tok != token.ADD_ASSIGN {
+				okShape = false
+				return true
+			}
+			for _, t := range flattenSum(as.Rhs[0]) {
+				t = unparen(t)
+				if as.Tok == token.ASSIGN && objOf(info, t) == obj {
+					continue // x = x + ...
+				}
+				kind := "?" + r.L.str(t)
+				if c, isC := constInt(info, t); isC && c == 7 {
+					kind = "header"
+				}
+				// uint32(len(X))
+				if conv, ok := t.(*ast.CallExpr); ok && len(conv.Args) == 1 && info.Types[conv.Fun].IsType() {
+					if ln, ok := unparen(conv.Args[0]).(*ast.CallExpr); ok && len(ln.Args) == 1 {
+						if id, ok := ln.Fun.(*ast.Ident); ok && id.Name == "len" {
+							switch {
+							case encBuf != "" && res.str(ln.Args[0]) == encBuf+".data":
+								kind = "fixed"
+							case isPayload(ln.Args[0]):
+								kind = "payload"
+							}
+						}
+					}
+				}
+				kinds = append(kinds, kind)
+			}
 			return true
+		})
+		sort.Strings(kinds)
+		got := strings.Join(kinds, " + ")
+		r.check(okShape && got == "fixed + header + payload", "r7", "send total length", send.Decl.Pos(),
+			"size field = 7 + len(fixed part) + len(payload)", "size field is computed as ["+got+"], want headerLength + len(fixed part) + len(payload)")
+	}
+	// vectors: header array, fixed part, payload appended in this order; a single WriteTo
+	var appended []string
+	writeTo := 0
+	for _, s := range m.sitesInOrder(send) {
+		if s.Callee == "net.Buffers.WriteTo" {
+			writeTo++
 		}
-		switch as.Tok {
-		case token.DEFINE, token.ASSIGN:
-			for _, t := range flattenSum(as.Rhs[0]) {
-				terms = append(terms, r.L.str(t))
-			}
-		case token.ADD_ASSIGN:
-			for _, t := range flattenSum(as.Rhs[0]) {
-				terms = append(terms, r.L.str(t))
-			}
-		default:
-			okShape = false
+		id, ok := s.Call.Fun.(*ast.Ident)
+		if !ok || id.Name != "append" || len(s.Call.Args) < 2 || len(s.Inl) > 0 {
+			continue
 		}
-		return true
-	})
-	sort.Strings(terms)
-	got := strings.Join(terms, " + ")
-	want3 := len(terms) == 3 && strings.Contains(got, "headerLength") && strings.Contains(got, "len(dataBuf.data)") && strings.Contains(got, "len(p)")
-	r.check(okShape && want3, "r7", "send total length", send.Decl.Pos(),
-		"size field = "+got, "size field is computed as ["+got+"], want headerLength + len(fixed part) + len(payload)")
+		if t := info.TypeOf(s.Call.Args[0]); t == nil || !strings.HasSuffix(t.String(), "net.Buffers") {
+			continue
+		}
+		for _, a := range s.Call.Args[1:] {
+			a = unparen(a)
+			kind := "?" + r.L.str(a)
+			if sl, ok := a.(*ast.SliceExpr); ok && sl.Low == nil && sl.High == nil && objOf(info, sl.X) == hdrArr && hdrArr != nil {
+				kind = "header"
+			} else if encBuf != "" && res.str(a) == encBuf+".data" {
+				kind = "fixed"
+			} else if isPayload(a) {
+				kind = "payload"
+			}
+			appended = append(appended, kind)
+		}
+	}
+	gotV := strings.Join(appended, ", ")
+	r.check(gotV == "header, fixed, payload", "r7", "send vectors", send.Decl.Pos(), "vectors appended in order: "+gotV, "vectors are ["+gotV+"], want header, fixed part, payload")
+	r.check(writeTo == 1, "r7", "send single write", send.Decl.Pos(), "one vecs.WriteTo call", fmt.Sprintf("%d WriteTo calls, want exactly 1 (C06.r3)", writeTo))
 }
 
 func flattenSum(e ast.Expr) []ast.Expr {
@@ -761,35 +894,6 @@ func flattenSum(e ast.Expr) []ast.Expr {
 		return append(flattenSum(be.X), flattenSum(be.Y)...)
 	}
 	return []ast.Expr{e}
-}
-
-func c01Vectors(r *Run, x *codecX, send *FuncInfo, hdrBufObj types.Object) {
-	info := x.info
-	var appended []string
-	writeTo := 0
-	ast.Inspect(send.Decl.Body, func(n ast.Node) bool {
-		switch v := n.(type) {
-		case *ast.AssignStmt:
-			if len(v.Rhs) == 1 {
-				if call, ok := v.Rhs[0].(*ast.CallExpr); ok && len(call.Args) == 2 {
-					if id, ok := call.Fun.(*ast.Ident); ok && id.Name == "append" {
-						if t := info.TypeOf(call.Args[0]); t != nil && strings.HasSuffix(t.String(), "net.Buffers") {
-							appended = append(appended, r.L.str(call.Args[1]))
-						}
-					}
-				}
-			}
-		case *ast.CallExpr:
-			if calleeKey(info, v) == "net.Buffers.WriteTo" {
-				writeTo++
-			}
-		}
-		return true
-	})
-	got := strings.Join(appended, ", ")
-	okOrder := len(appended) == 3 && strings.HasPrefix(appended[0], "hdr") && strings.Contains(appended[1], "dataBuf.data") && appended[2] == "p"
-	r.check(okOrder, "r7", "send vectors", send.Decl.Pos(), "vectors appended in order: "+got, "vectors are ["+got+"], want header, fixed part, payload")
-	r.check(writeTo == 1, "r7", "send single write", send.Decl.Pos(), "one vecs.WriteTo call", fmt.Sprintf("%d WriteTo calls, want exactly 1 (C06.r3)", writeTo))
 }
 
 func c01Payloaders(r *Run, x *codecX, entries []regEntry, layouts map[string][2][]LItem) {
